@@ -155,5 +155,34 @@ fn main() -> tantivy::Result<()> {
     mark(&format!("api_end/commit/{commits}"));
     w.wait_merging_threads()?;
     mark("api_end/all");
+    // writer-lock lifecycle on the real MmapDirectory (C18 adjunct): the outcomes go into the trace as a marker
+    let mut flags = vec![];
+    let index2 = Index::open(MarkDir(
+        MmapDirectory::open(&dir).map_err(|e| tantivy::TantivyError::SystemError(e.to_string()))?,
+    ))?;
+    let w2: Result<IndexWriter, _> = index.writer_with_num_threads(1, 15_000_000);
+    flags.push(w2.is_ok()); // created after wait_merging_threads consumed the first writer
+    let second: Result<IndexWriter, _> = index2.writer_with_num_threads(1, 15_000_000);
+    flags.push(matches!(second, Err(tantivy::TantivyError::LockFailure(..)))); // refused with a lock error while w2 is alive
+    drop(second);
+    let mut w2 = w2?;
+    w2.add_document(doc!(id => next, body => "lock lifecycle"))?;
+    w2.rollback()?;
+    let second: Result<IndexWriter, _> = index2.writer_with_num_threads(1, 15_000_000);
+    flags.push(matches!(second, Err(tantivy::TantivyError::LockFailure(..)))); // still refused after rollback
+    drop(second);
+    drop(w2);
+    let w3: Result<IndexWriter, _> = index2.writer_with_num_threads(1, 15_000_000);
+    flags.push(w3.is_ok()); // released by drop
+    let bad: Result<IndexWriter, _> = index.writer_with_num_threads(1, 1_000);
+    flags.push(bad.is_err());
+    drop(w3);
+    let w4: Result<IndexWriter, _> = index.writer_with_num_threads(1, 15_000_000);
+    flags.push(w4.is_ok());
+    drop(w4);
+    mark(&format!(
+        "api_end/lock/{}",
+        flags.iter().map(|b| if *b { "1" } else { "0" }).collect::<String>()
+    ));
     Ok(())
 }
